@@ -72,7 +72,8 @@ def scenarios(tier, seed):
             ("idle", rng.choice(["quit", "quit_waiting"]), None),
             ("warmup", rng.choice(SIGNALS), None),
             ("op", rng.choice(SIGNALS), rng.choice(["restart_stub", "stop_stub"])),
-            ("op", rng.choice(SIGNALS), rng.choice(["restart_all", "reload_stub", "stop_all"])),
+            ("op", rng.choice(SIGNALS), rng.choice(["reload_stub", "stop_all"])),
+            ("op", rng.choice(SIGNALS), "restart_all"),      # (always: a signal while the whole arbiter restarts)
             (rng.choice(["warmup", "op"]), rng.choice(["quit", "quit_waiting"]), "restart_stub")]
     out = list(base)
     if tier != "quick":
